@@ -177,6 +177,7 @@ def make_history(base, cfg, r, n_commits=None, kind=None):
         con.execute("COMMIT")
         h.events.append(op)
         h.snapshots.append(snapshot(con, tables))
+        wal_size = os.path.getsize(work + "-wal") if os.path.exists(work + "-wal") else 0
         if kind == "checkpoint_restart" and k == n_commits // 2 and not stale_generation and k + 1 < n_commits:
             # checkpoint everything; the next write restarts the WAL and leaves stale frames behind
             con.execute("PRAGMA wal_checkpoint(FULL)")
@@ -191,12 +192,14 @@ def make_history(base, cfg, r, n_commits=None, kind=None):
             h.events.append("passive-checkpoint")
             h.passive_at = len(h.snapshots) - 1
         if kind == "grow_shrink" and cfg["auto_vacuum"] and k == n_commits // 2:
-            con.execute("BEGIN")
-            con.execute("DELETE FROM t0 WHERE rowid % 2 = 0")
-            con.execute("COMMIT")
-            con.execute("PRAGMA incremental_vacuum")
-            h.events.append("shrink")
-            h.snapshots.append(snapshot(con, tables))
+            # two statements that may each commit: a snapshot is recorded for each one that wrote frames
+            for stmt in ("DELETE FROM t0 WHERE rowid % 2 = 0", "PRAGMA incremental_vacuum"):
+                con.execute(stmt).fetchall()
+                now = os.path.getsize(work + "-wal") if os.path.exists(work + "-wal") else 0
+                if now > wal_size:
+                    h.events.append("shrink:" + stmt.split()[0].lower())
+                    h.snapshots.append(snapshot(con, tables))
+                    wal_size = now
     h.db = base + ".h.db"
     h.wal = base + ".h.db-wal"
     shutil.copyfile(work, h.db)
